@@ -1,7 +1,320 @@
-//! C20 - placeholder, replaced below.
-use crate::model::Analysis;
-use crate::oracle::{Aux, Tally, Violation};
+//! C20 - the event log is a faithful, balanced account of every frame.
 
-pub fn check(_a: &Analysis, _aux: &mut Aux, _t: &mut Tally) -> Vec<Violation> {
-    Vec::new()
+use std::collections::BTreeMap;
+
+use crate::model::Analysis;
+use crate::node::LoggerKind;
+use crate::oracle::c01::layer_path;
+use crate::oracle::{Aux, Tally, Verdict, Violation};
+use crate::wire::*;
+
+#[derive(Debug, Clone)]
+struct Event {
+    proto: String,
+    verb: String,
+    f: BTreeMap<&'static str, String>,
+}
+
+const PROTOS: [&str; 8] = ["arp", "eth", "ipv4", "ipv6", "icmpv4", "icmpv6", "tcp", "udp"];
+
+fn ts_ok(s: &str) -> bool {
+    let mut it = s.split('.');
+    match (it.next(), it.next(), it.next()) {
+        (Some(a), Some(b), None) => {
+            !a.is_empty() && !b.is_empty() && a.bytes().all(|c| c.is_ascii_digit()) && b.bytes().all(|c| c.is_ascii_digit())
+        }
+        _ => false,
+    }
+}
+
+fn parse_console(l: &str) -> Result<Event, String> {
+    let c: Vec<&str> = l.split('\t').collect();
+    if c.len() < 3 {
+        return Err(format!("only {} columns", c.len()));
+    }
+    if !ts_ok(c[0]) {
+        return Err(format!("timestamp {:?}", c[0]));
+    }
+    if !PROTOS.contains(&c[1]) {
+        return Err(format!("protocol column {:?}", c[1]));
+    }
+    if !["recv", "send", "drop"].contains(&c[2]) {
+        return Err(format!("verb column {:?}", c[2]));
+    }
+    let want = match c[1] {
+        "arp" => 8,
+        "eth" | "ipv4" | "ipv6" | "udp" => 11,
+        "icmpv4" | "icmpv6" => 12,
+        _ => 13,
+    };
+    if c.len() != want {
+        return Err(format!("{} columns for a {} event, expected {}", c.len(), c[1], want));
+    }
+    let mut f = BTreeMap::new();
+    if c[1] == "arp" {
+        f.insert("mac_src", c[3].to_string());
+        f.insert("mac_dst", c[4].to_string());
+        f.insert("ip_src", c[5].to_string());
+        f.insert("ip_dst", c[6].to_string());
+        if c[7].is_empty() {
+            return Err("empty ARP operation column".into());
+        }
+    } else {
+        for (k, i) in [("mac_src", 3), ("mac_dst", 4), ("ip_src", 5), ("ip_dst", 6), ("transport", 7), ("port_src", 8), ("port_dst", 9)] {
+            if !c[i].is_empty() {
+                f.insert(k, c[i].to_string());
+            }
+        }
+        if c[1] != "udp" && c[10..].iter().any(|x| x.is_empty()) {
+            return Err("empty trailing column".into());
+        }
+    }
+    Ok(Event {
+        proto: c[1].to_string(),
+        verb: c[2].to_string(),
+        f,
+    })
+}
+
+fn parse_logfmt(l: &str) -> Result<Event, String> {
+    let mut f = BTreeMap::new();
+    let mut proto = None;
+    let mut verb = None;
+    let mut ts = None;
+    for tok in l.split(' ').filter(|t| !t.is_empty()) {
+        let eq = match tok.find('=') {
+            Some(e) if e > 0 => e,
+            _ => return Err(format!("token {:?} is not key=value", tok)),
+        };
+        let (k, val) = (&tok[..eq], &tok[eq + 1..]);
+        if val.is_empty() {
+            return Err(format!("empty value for {}", k));
+        }
+        match k {
+            "ts" => ts = Some(val.to_string()),
+            "proto" => proto = Some(val.to_string()),
+            "verb" => verb = Some(val.to_string()),
+            "mac_src" => {
+                f.insert("mac_src", val.to_string());
+            }
+            "mac_dst" => {
+                f.insert("mac_dst", val.to_string());
+            }
+            "ip_src" => {
+                f.insert("ip_src", val.to_string());
+            }
+            "ip_dst" => {
+                f.insert("ip_dst", val.to_string());
+            }
+            "transport" => {
+                f.insert("transport", val.to_string());
+            }
+            "port_src" => {
+                f.insert("port_src", val.to_string());
+            }
+            "port_dst" => {
+                f.insert("port_dst", val.to_string());
+            }
+            _ => {}
+        }
+    }
+    let (ts, proto, verb) = match (ts, proto, verb) {
+        (Some(a), Some(b), Some(c)) => (a, b, c),
+        _ => return Err("ts/proto/verb missing".into()),
+    };
+    if !ts_ok(&ts) {
+        return Err(format!("timestamp {:?}", ts));
+    }
+    if !PROTOS.contains(&proto.as_str()) {
+        return Err(format!("proto {:?}", proto));
+    }
+    if !["recv", "send", "drop"].contains(&verb.as_str()) {
+        return Err(format!("verb {:?}", verb));
+    }
+    Ok(Event { proto, verb, f })
+}
+
+pub fn check(a: &Analysis, _aux: &mut Aux, t: &mut Tally) -> Vec<Violation> {
+    let mut v = Vec::new();
+    let kind = a.hist.config.logger;
+    if kind == LoggerKind::None {
+        return v;
+    }
+    let fmt = kind.as_str();
+    for s in &a.steps {
+        let logs = match a.hist.recs[s.idx].obs.as_ref() {
+            Some(o) => &o.logs,
+            None => continue,
+        };
+        let path = layer_path(&s.req);
+        let mut bad = |rule: &str, key: String, detail: String| {
+            v.push(Violation {
+                prop: "C20",
+                rule: rule.into(),
+                key,
+                step: s.idx,
+                detail,
+            });
+        };
+        // 1. every line is syntactically complete
+        let mut evs: Vec<Event> = Vec::new();
+        let mut syntax_ok = true;
+        for l in logs {
+            let r = if kind == LoggerKind::Console { parse_console(l) } else { parse_logfmt(l) };
+            match r {
+                Ok(e) => evs.push(e),
+                Err(e) => {
+                    syntax_ok = false;
+                    bad("line-syntax", format!("line-syntax:{}", fmt), format!("{} line {:?}: {}", fmt, l, e));
+                }
+            }
+        }
+        if !syntax_ok {
+            continue;
+        }
+        let shape: Vec<String> = evs.iter().map(|e| format!("{}:{}", e.proto, &e.verb[..1])).collect();
+        t.judged(
+            if s.reply.is_some() { Verdict::Reply } else { Verdict::Silent },
+            format!("{}|{}|{}", fmt, path, shape.join(",")),
+        );
+        if s.req.eth.is_none() {
+            // nothing can be said about a frame without an Ethernet header, except that nothing may claim a send
+            if evs.iter().any(|e| e.verb == "send") {
+                bad("send-without-reply", "send-without-reply".into(), "send event for a frame without Ethernet header".into());
+            }
+            continue;
+        }
+        // 2. balance and nesting
+        let mut stack: Vec<&str> = Vec::new();
+        let mut seen: Vec<&str> = Vec::new();
+        let mut terminal: BTreeMap<&str, &str> = BTreeMap::new();
+        let mut nest_ok = true;
+        for e in &evs {
+            let p = e.proto.as_str();
+            if e.verb == "recv" {
+                if seen.contains(&p) {
+                    bad("duplicate-recv", format!("duplicate-recv:{}", p), format!("two recv events for layer {} ({})", p, shape.join(",")));
+                    nest_ok = false;
+                    break;
+                }
+                seen.push(p);
+                stack.push(p);
+            } else {
+                if terminal.contains_key(p) {
+                    bad("duplicate-terminal", format!("duplicate-terminal:{}", p), format!("two terminal events for layer {} ({})", p, shape.join(",")));
+                    nest_ok = false;
+                    break;
+                }
+                match stack.last() {
+                    Some(top) if *top == p => {
+                        stack.pop();
+                        terminal.insert(p, e.verb.as_str());
+                    }
+                    _ => {
+                        bad("nesting", format!("nesting:{}", p), format!("terminal event of layer {} while {:?} is open ({})", p, stack.last(), shape.join(",")));
+                        nest_ok = false;
+                        break;
+                    }
+                }
+            }
+        }
+        if !nest_ok {
+            continue;
+        }
+        if let Some(open) = stack.last() {
+            bad("missing-terminal", format!("missing-terminal:{}", open), format!("layer {} has a recv event but no send/drop ({})", open, shape.join(",")));
+            continue;
+        }
+        if seen.first() != Some(&"eth") {
+            bad("missing-eth", "missing-eth-recv".into(), format!("first event is not the Ethernet recv ({})", shape.join(",")));
+            continue;
+        }
+        // order of layers: eth, then arp | ipv4 | ipv6, then the transport
+        let rank = |p: &str| match p {
+            "eth" => 0,
+            "arp" | "ipv4" | "ipv6" => 1,
+            _ => 2,
+        };
+        if seen.windows(2).any(|w| rank(w[0]) >= rank(w[1])) {
+            bad("layer-order", "layer-order".into(), format!("layers logged out of order ({})", shape.join(",")));
+        }
+        // 3. the Ethernet terminal event says what happened
+        let eth_term = terminal.get("eth").copied().unwrap_or("");
+        if (eth_term == "send") != s.reply.is_some() {
+            bad(
+                "eth-terminal",
+                format!("eth-terminal:{}:{}", eth_term, if s.reply.is_some() { "reply" } else { "silence" }),
+                format!("Ethernet terminal event is {:?} but {}", eth_term, if s.reply.is_some() { "a reply was emitted" } else { "no reply was emitted" }),
+            );
+        }
+        // 4. printed addresses and ports are those of the frame
+        let eth = s.req.eth.as_ref().unwrap();
+        let want_ms = mac_str(&eth.src);
+        let want_md = mac_str(&eth.dst);
+        let ips = s.req.ip_src();
+        let ipd = s.req.ip_dst();
+        let ports = s.req.ports();
+        let stun_rewrite = s
+            .reply
+            .as_ref()
+            .and_then(|r| r.ports())
+            .zip(ports)
+            .map(|((rs, _), (_, qd))| rs != qd)
+            .unwrap_or(false);
+        for e in &evs {
+            if e.proto == "arp" {
+                if let L3::Arp(q) = &s.req.l3 {
+                    // arp lines print the ARP header's own address pairs
+                    let (sha, tha) = (mac_str(&q.f.sha), mac_str(&q.f.tha));
+                    let (spa, tpa) = (std::net::Ipv4Addr::from(q.f.spa).to_string(), std::net::Ipv4Addr::from(q.f.tpa).to_string());
+                    let got = (e.f.get("mac_src"), e.f.get("mac_dst"), e.f.get("ip_src"), e.f.get("ip_dst"));
+                    let want = (Some(&sha), Some(&tha), Some(&spa), Some(&tpa));
+                    // a send event describes the reply: (own MAC, requested address) and the
+                    // requester's pair, in either orientation
+                    let own = mac_str(&a.hist.config.mac);
+                    let send_ok = e.verb == "send"
+                        && (got == (Some(&own), Some(&sha), Some(&tpa), Some(&spa))
+                            || got == (Some(&sha), Some(&own), Some(&spa), Some(&tpa)));
+                    if got != want && !send_ok {
+                        bad("fields", "fields:arp".into(), format!("arp {} event prints {:?}, the request holds {:?}", e.verb, got, want));
+                    }
+                }
+                continue;
+            }
+            if e.f.get("mac_src") != Some(&want_ms) || e.f.get("mac_dst") != Some(&want_md) {
+                bad("fields", format!("fields:mac:{}", e.proto), format!("{} {} event prints MACs {:?}/{:?}, the frame has {}/{}", e.proto, e.verb, e.f.get("mac_src"), e.f.get("mac_dst"), want_ms, want_md));
+            }
+            for (k, want) in [("ip_src", ips), ("ip_dst", ipd)] {
+                if let Some(got) = e.f.get(k) {
+                    let ok = match (got.parse::<std::net::IpAddr>(), want) {
+                        (Ok(g), Some(w)) => g == w,
+                        _ => false,
+                    };
+                    if !ok {
+                        bad("fields", format!("fields:{}:{}", k, e.proto), format!("{} {} event prints {} {:?}, the frame has {:?}", e.proto, e.verb, k, got, want));
+                    }
+                } else if e.proto != "eth" || e.verb != "recv" {
+                    if e.proto != "eth" && want.is_some() {
+                        bad("fields", format!("fields:{}-missing:{}", k, e.proto), format!("{} {} event prints no {}", e.proto, e.verb, k));
+                    }
+                }
+            }
+            if matches!(e.proto.as_str(), "tcp" | "udp") {
+                if let Some((qs, qd)) = ports {
+                    if e.f.get("port_src").and_then(|x| x.parse::<u16>().ok()) != Some(qs) {
+                        bad("fields", format!("fields:port_src:{}", e.proto), format!("{} {} event prints source port {:?}, the frame has {}", e.proto, e.verb, e.f.get("port_src"), qs));
+                    }
+                    let pd = e.f.get("port_dst").and_then(|x| x.parse::<u16>().ok());
+                    if pd != Some(qd) {
+                        if stun_rewrite && e.verb == "send" {
+                            t.any("destination-port-after-stun-change-port");
+                        } else {
+                            bad("fields", format!("fields:port_dst:{}", e.proto), format!("{} {} event prints destination port {:?}, the frame has {}", e.proto, e.verb, e.f.get("port_dst"), qd));
+                        }
+                    }
+                }
+            }
+        }
+    }
+    v
 }
